@@ -3,7 +3,7 @@
     through this function.  Decoding glue only; no proofs. *)
 From Coq Require Import ZArith List Bool.
 From PV Require Import Flat Bytes BinFmt RWQc Sched Proto.
-From PV Require Import RunC07 RunC08 RunC09 RunC10 RunC11 RunC12 RunC15 RunC16 RunC18 RunC19 RunC20.
+From PV Require Import RunC02 RunC07 RunC08 RunC09 RunC10 RunC11 RunC12 RunC15 RunC16 RunC18 RunC19 RunC20.
 Import ListNotations.
 Open Scope Z_scope.
 
@@ -117,6 +117,7 @@ Definition run_core (id : Z) (inp : list Z) : option (list Z) :=
 (** one runner per model family; the first that knows the id answers *)
 Definition runners : list (Z -> list Z -> option (list Z)) :=
   [ run_core
+  ; run_c02
   ; run_c07
   ; run_c08
   ; run_c09
